@@ -14,7 +14,7 @@ import itertools
 
 from .common import *   # noqa: F401,F403
 from pyvc.core import Builtin
-from . import C02
+from . import C02, C14
 
 MC = 'propka.molecular_container.MolecularContainer'
 CC = 'propka.conformation_container.ConformationContainer'
@@ -189,12 +189,14 @@ def task_topup(pr, repo):
                         print(s, others, [a.attrs.get('numb') for a in now], expect, [a.attrs.get('conformation_container') for a in now[len(mine):]])
                     ok = (now[:len(mine)] == mine and [a.attrs['numb'] for a in added] == expect
                           and all(a.attrs['conformation_container'] is conf for a in added)
+                          and all(a.attrs['icode'] == ' ' and a.attrs['residue_label'] == universe[a.attrs['numb']]['residue_label']
+                                  and a.attrs['chain_id'] == universe[a.attrs['numb']]['chain_id'] for a in added)
                           and not any(any(a is o for o in oth) for a in added))
                     mixed = {}
                     for a in now:
                         mixed.setdefault((a.attrs['chain_id'], a.attrs['res_num']), set()).add(a.attrs['res_name'])
                     ctx.oblige('TU[self %s, others %s]: copies exactly the missing atoms whose residue position is free or of the same '
-                               'residue type (as fresh copies owned by this conformation); no position mixes residue types' % (s, list(others)),
+                               'residue type (as fresh copies owned by this conformation, with chain, label and insertion code kept); no position mixes residue types' % (s, list(others)),
                                ok and all(len(v) == 1 for v in mixed.values()))
                 pr.explore(ex, thunk, 'top_up_from_atoms')
     pr.notes.append('TU: %d (own atoms, reference sequence) cases over a universe of %d atoms' % (n_cases, len(universe)))
@@ -206,27 +208,34 @@ def task_topup_conformations(pr, repo):
     pr.under_contract(fi)
     A = repo.cls('propka.atom.Atom')
 
-    def thunk(ex, ctx):
+    layouts = {'unequal sizes': (('1A', ['N    1 A', 'CB   2 A']), ('1B', ['N    1 A', 'CG   2 A']), ('2A', ['O    9 A'])),
+               'equal sizes, different atoms': (('1A', ['N    1 A', 'CB   2 A']), ('1B', ['N    1 A', 'CG   2 A']), ('2A', ['N    1 A', 'O    9 A'])),
+               'identical': (('1A', ['N    1 A', 'CB   2 A']), ('1B', ['N    1 A', 'CB   2 A']), ('2A', ['N    1 A', 'CB   2 A']))}
+
+    def thunk(ex, ctx, layout):
         calls = []
 
         def tu(ex, ctx_, fi_, a, k, so):
             calls.append((so, list(a[0])))
         ex.contracts[CC + '.top_up_from_atoms'] = tu
         atoms = {c: [record('%s_%d' % (c, i), A, residue_label=lab) for i, lab in enumerate(labs)]
-                 for c, labs in (('1A', ['N    1 A', 'CB   2 A']), ('1B', ['N    1 A', 'CG   2 A']), ('2A', ['O    9 A']))}
+                 for c, labs in layouts[layout]}
         confs = {c: record('conf' + c, repo.cls(CC), atoms=atoms[c]) for c in atoms}
         mol = record('mol', repo.cls(MC), conformation_names=['1A', '1B', '2A'], conformations=confs)
         ex.call_function(fi, [], self_obj=mol)
         labels_all = {a.attrs['residue_label'] for c in atoms for a in atoms[c]}
-        ok = len(calls) == 3 and {id(c[0]) for c in calls} == {id(v) for v in confs.values()}
+        # a conformation that already holds every label needs no top-up (a call would be a no-op: TU)
+        incomplete = [c for c in atoms if {a.attrs['residue_label'] for a in atoms[c]} != labels_all]
+        ok = all(any(so is confs[c] for so, _ in calls) for c in incomplete) and len({id(c[0]) for c in calls}) == len(calls)
         for so, ref in calls:
             ok = ok and {a.attrs['residue_label'] for a in ref} == labels_all
             # for a label present in several conformations the FIRST conformation's atom is the reference
             first = [a for a in ref if a.attrs['residue_label'] == 'N    1 A']
             ok = ok and len(first) == 1 and first[0] is atoms['1A'][0]
-        ctx.oblige('TC: every conformation is topped up from one reference atom per atom label over ALL conformations '
-                   '(the first conformation that has it)', ok)
-    pr.explore(ex, thunk, 'top_up_conformations')
+        ctx.oblige('TC[%s]: every conformation that lacks an atom is topped up (once) from one reference atom per atom label over ALL conformations '
+                   '(the first conformation that has it)' % layout, ok)
+    for layout in layouts:
+        pr.explore(ex, lambda ex, ctx, layout=layout: thunk(ex, ctx, layout), 'top_up_conformations ' + layout)
 
 
 def task_sorter(pr, repo):
@@ -258,7 +267,8 @@ def task_sorter(pr, repo):
 
 
 def run(pr, repo):
-    pr.parallel([(task_average, (3,)), (task_average, (2,)), (task_average_twins, ()), (task_topup, ()), (task_topup_conformations, ()), (task_sorter, ())])
+    pr.parallel([(task_average, (3,)), (task_average, (2,)), (task_average_twins, ()), (task_topup, ()), (task_topup_conformations, ()), (task_sorter, ()),
+                 (C14.task_make_copy, ())])
     pr.assumptions += ['AV: two group identities over 2 and 3 conformations, one determinant per type and conformation '
                        '(values symbolic); more groups behave independently (find_group matches by atom label and type)',
                        'residue identity = atom label (name, number, chain) as in the code: insertion codes are not part of it '
